@@ -239,8 +239,11 @@ void harness(void) { setup(); snoopy_datasource_datetime(buf, BUFSZ, IN.arg); TE
 int snoopy_datasource_rpname(char * const, size_t, char const * const);
 #define RP_LINE 12
 #define RP_NLINES 3
+#ifndef RP_DEPTH
+#define RP_DEPTH 2                  /* ancestors modelled: the process (pid 50), its parent (40)[, its grandparent (30)] */
+#endif
 struct rp_file { char line[RP_NLINES][RP_LINE]; int pos; int open; };
-static struct rp_file g_rp[2];
+static struct rp_file g_rp[3];
 static int g_rp_opens, g_rp_ok, g_rp_open_now, g_rp_foreign;
 FILE *fopen(const char *path, const char *mode)
 {
@@ -250,6 +253,7 @@ FILE *fopen(const char *path, const char *mode)
     V_ASSERT(g_rp_opens <= 6, "C12: rpname walks a two-level process tree with at most three reads");
     if (strcmp(path, "/proc/50/status") == 0 || strcmp(path, "/proc/self/status") == 0) i = 0;
     else if (strcmp(path, "/proc/40/status") == 0) i = 1;
+    else if (RP_DEPTH > 2 && strcmp(path, "/proc/30/status") == 0) i = 2;
     else { g_rp_foreign = 1; errno = ENOENT; return NULL; }
     if (v_choice() & 1) { errno = ENOENT; return NULL; }          /* process gone, procfs not mounted, EMFILE ... */
     V_ASSERT(!g_rp[i].open, "C03/C16: a status file is opened again while the previous stream on it is still open");
@@ -259,7 +263,7 @@ FILE *fopen(const char *path, const char *mode)
 ssize_t getline(char **lineptr, size_t *n, FILE *fp)
 {
     struct rp_file *f = (struct rp_file *)(void *)fp;
-    V_ASSERT(f == &g_rp[0] || f == &g_rp[1], "STDIO MISUSE: getline on something that is not a stream");
+    V_ASSERT(f == &g_rp[0] || f == &g_rp[1] || f == &g_rp[2], "STDIO MISUSE: getline on something that is not a stream");
     V_ASSERT(f->open, "STDIO MISUSE: getline on a closed stream");
     if (f->pos >= RP_NLINES) return -1;
     if (*lineptr == NULL) { *lineptr = malloc(RP_LINE); *n = RP_LINE; }
@@ -272,7 +276,7 @@ ssize_t getline(char **lineptr, size_t *n, FILE *fp)
 int fclose(FILE *fp)
 {
     struct rp_file *f = (struct rp_file *)(void *)fp;
-    V_ASSERT(f == &g_rp[0] || f == &g_rp[1], "STDIO MISUSE: fclose on something that is not a stream");
+    V_ASSERT(f == &g_rp[0] || f == &g_rp[1] || f == &g_rp[2], "STDIO MISUSE: fclose on something that is not a stream");
     V_ASSERT(f->open, "STDIO MISUSE: fclose of a stream that is not open");
     f->open = 0; g_rp_open_now--;
     return 0;
@@ -291,19 +295,22 @@ void harness(void)
 {
     setup();
     v_sys.pid = 50;
-    int direct = IN.nenv & 1;                                     /* the process itself is / is not a child of pid 1 */
-    for (int k = 0; k < 4; k++) { V_ASSUME(IN.e0[k] != '\n' && IN.e0[k] != '\0'); V_ASSUME(IN.e1[k] != '\n' && IN.e1[k] != '\0'); }
-    unsigned nl0 = 1 + (IN.fl[10] & 3), nl1 = 1 + (IN.fl[11] & 3);   /* names of 1..4 arbitrary bytes */
-    render_status(0, IN.e0, nl0, direct ? ((IN.nenv & 4) ? "PPid:\t0\n" : "PPid:\t1\n") : "PPid:\t40\n");
-    render_status(1, IN.e1, nl1, (IN.nenv & 2) ? "PPid:\t0\n" : "PPid:\t1\n");
+    int level = (IN.nenv & 3) % RP_DEPTH;                         /* which ancestor is the child of pid 1/0: 0 = the process itself */
+    const char *nm[3] = { IN.e0, IN.e1, IN.pw };
+    unsigned nl[3] = { 1u + (IN.fl[10] & 3), 1u + (IN.fl[11] & 3), 1u + (IN.fl[9] & 3) };   /* names of 1..4 arbitrary bytes */
+    static const char *const up[3] = { "PPid:\t40\n", "PPid:\t30\n", "PPid:\t1\n" };
+    for (int i = 0; i < RP_DEPTH; i++) {
+        for (int k = 0; k < 4; k++) V_ASSUME(nm[i][k] != '\n' && nm[i][k] != '\0');
+        render_status(i, nm[i], nl[i], (i == level) ? ((IN.nenv & 4) ? "PPid:\t0\n" : "PPid:\t1\n") : up[i]);
+    }
     snoopy_datasource_rpname(buf, BUFSZ, "");
     TERMINATED();
     V_ASSERT(g_rp_open_now == 0, "C03/C16: every procfs stream is closed on every path");
     V_ASSERT(!g_rp_foreign, "C12: rpname reads only the status files of the process and its ancestors");
-    const char *want = direct ? IN.e0 : IN.e1; unsigned wl = direct ? nl0 : nl1;
+    const char *want = nm[level]; unsigned wl = nl[level];
     int is_want = (strnlen(buf, BUFSZ) == wl);
     for (unsigned k = 0; k < 4; k++) if (k < wl && buf[k] != want[k]) is_want = 0;
-    int expected_opens = direct ? 2 : 3;
+    int expected_opens = level + 2;
     if (g_rp_ok == expected_opens && g_rp_opens == expected_opens)
         V_ASSERT(is_want, "C12: rpname = name of the ancestor whose parent is pid 1 (or 0), exactly as the kernel reports it");
     else
@@ -316,18 +323,21 @@ void harness(void)
  * util/file.c's reader is replaced by a stub handing out the text (or failing); util/string.c is the real code. */
 int snoopy_datasource_cgroup(char * const, size_t, char const * const);
 #define CG_LINE 10                  /* d ':' L0 L1 L2 L3 ':' P0 P1 '\n' */
-#define CG_CAP 24
+#ifndef CG_NLINES
+#define CG_NLINES 2
+#endif
+#define CG_CAP (CG_NLINES * CG_LINE + 4)
 static int g_cg_foreign, g_cg_reads;
-static char g_cg_text[2 * CG_LINE + 1];
+static char g_cg_text[CG_NLINES * CG_LINE + 1];
 int snoopy_util_file_getSmallTextFileContent(char const * const filePath, char ** contentPtrAddr)
 {
     char *c = malloc(CG_CAP);
     g_cg_reads++;
     if (strcmp(filePath, "/proc/50/cgroup") != 0 && strcmp(filePath, "/proc/self/cgroup") != 0) g_cg_foreign = 1;
     if (v_choice() & 1) { c[0] = 'E'; c[1] = '\0'; *contentPtrAddr = c; return -1; }
-    for (int k = 0; k < 2 * CG_LINE + 1; k++) c[k] = g_cg_text[k];
+    for (int k = 0; k < CG_NLINES * CG_LINE + 1; k++) c[k] = g_cg_text[k];
     *contentPtrAddr = c;
-    return 2 * CG_LINE;
+    return CG_NLINES * CG_LINE;
 }
 static int cg_list_has(const char *L, const char *a, int al)
 {
@@ -346,15 +356,15 @@ void harness(void)
 {
     setup();
     v_sys.pid = 50;
-    const char *Ls[2] = { IN.e0, IN.e1 };
-    char d[2] = { (char)('0' + IN.fl[10] % 10), (char)('0' + IN.fl[11] % 10) };
-    for (int i = 0; i < 2; i++) {
+    const char *Ls[3] = { IN.e0, IN.e1, IN.tty };
+    char d[3] = { (char)('0' + IN.fl[10] % 10), (char)('0' + IN.fl[11] % 10), (char)('0' + IN.fl[9] % 10) };
+    for (int i = 0; i < CG_NLINES; i++) {
         for (int k = 0; k < 4; k++) V_ASSUME(Ls[i][k] != ':' && Ls[i][k] != '\n' && Ls[i][k] != '\0');   /* controller list */
         for (int k = 4; k < 6; k++) V_ASSUME(Ls[i][k] != '\n' && Ls[i][k] != '\0');                     /* path: any other byte */
         char *t = g_cg_text + i * CG_LINE;
         t[0] = d[i]; t[1] = ':'; t[2] = Ls[i][0]; t[3] = Ls[i][1]; t[4] = Ls[i][2]; t[5] = Ls[i][3]; t[6] = ':'; t[7] = Ls[i][4]; t[8] = Ls[i][5]; t[9] = '\n';
     }
-    g_cg_text[2 * CG_LINE] = '\0';
+    g_cg_text[CG_NLINES * CG_LINE] = '\0';
     IN.arg[4] = '\0';
     int al = (int)strnlen(IN.arg, 6);
     V_ASSUME(al >= 1);
@@ -367,7 +377,7 @@ void harness(void)
         V_ASSERT(rc == SNOOPY_DATASOURCE_FAILURE && strncmp(buf, "Unable to read file", 19) == 0, "C03: unreadable cgroup file => failure with a message");
     } else {
         int want = -1;
-        for (int i = 1; i >= 0; i--) {
+        for (int i = CG_NLINES - 1; i >= 0; i--) {
             int m = digits ? (al == 1 && IN.arg[0] == d[i]) : cg_list_has(Ls[i], IN.arg, al);
             if (m) want = i;
         }
